@@ -565,15 +565,19 @@ class Server(base_server.BaseServer):
             success = False
 
         if success is False:
-            if self.always_connect:
-                self.manager.pre_disconnect(sid, namespace)
-                self._send_packet(eio_sid, self.packet_class(
-                    packet.DISCONNECT, data=fail_reason, namespace=namespace))
-            else:
-                self._send_packet(eio_sid, self.packet_class(
-                    packet.CONNECT_ERROR, data=fail_reason,
-                    namespace=namespace))
-            self.manager.disconnect(sid, namespace, ignore_queue=True)
+            try:
+                if self.always_connect:
+                    self.manager.pre_disconnect(sid, namespace)
+                    self._send_packet(eio_sid, self.packet_class(
+                        packet.DISCONNECT, data=fail_reason,
+                        namespace=namespace))
+                else:
+                    self._send_packet(eio_sid, self.packet_class(
+                        packet.CONNECT_ERROR, data=fail_reason,
+                        namespace=namespace))
+            finally:
+                # whatever becomes of the answer, the client was refused
+                self.manager.disconnect(sid, namespace, ignore_queue=True)
         elif not self.always_connect and \
                 self.manager.is_connected(sid, namespace):
             # (a connect handler may have disconnected the client itself)
